@@ -153,7 +153,7 @@ def run(tier, seed):
         n = rng.randint(1, 8)
         cmpv = np.array([rng.choice([1.0, 0.0, -1.0]) for _ in range(n)])
         w = np.array([rng.choice([0.25, 0.5, 1.0, 2.0, 3.75]) for _ in range(n)])
-        k = rng.choice([0.5, 2.0, 3.0, 0.1, 1.0 / w.sum()])
+        k = rng.choice([0.5, 2.0, 3.0, 0.1, 1.0 / w.sum(), 2.0 ** -30, 1e-9, 2.0 ** 20])       # incl. very small / large time units (seeded C12r6-B)
         log.add("close", "chord.weighted_accuracy", call(c.weighted_accuracy, cmpv, w), call(c.weighted_accuracy, cmpv, w * k),
                 {"what": "weights rescaled", "comparisons": cmpv.tolist(), "weights": w.tolist(), "factor": k})
         if (cmpv >= 0).any():
